@@ -227,3 +227,33 @@ Example C12_example :
   map (fun p => (p_side (pg_type p), p_blank (pg_type p), pg_units p, pg_counter p, pg_pages p)) (paginate true d)
   = [(2%N, false, [0; 1; 2], 1%N, 3%N); (1%N, true, [], 2%N, 3%N); (2%N, false, [3; 4; 5], 3%N, 3%N)].
 Proof. vm_compute. reflexivity. Qed.
+
+(* --- the second layout of inFlowLayout (blocks.go:966-985: a block whose content fits but
+   whose bottom padding / border does not is laid out again with that much more bottomSpace).
+   `reserve` (Layout/Paginate.v) is the bottomSpace in force at a boundary, `fits_retry` the
+   fit test with it; Check/C12.v uses it to name pages that end early for this reason only
+   (code 17).  The reservation is never negative, so a page accepted with it is accepted by
+   the specification's test; and it is zero in flows without bottom padding / border, where
+   the two tests are the same function. *)
+Theorem C12_retry_reserve_nonneg : forall km us forced h s b, (0 <= reserve km us forced h s b)%Z.
+Proof. exact reserve_nonneg. Qed.
+Print Assumptions C12_retry_reserve_nonneg.
+
+Theorem C12_fits_retry_fits : forall css d us st s e,
+  fits_retry css d us st s e = true -> fits_doc css d us st s e = true.
+Proof. exact fits_retry_fits. Qed.
+Print Assumptions C12_fits_retry_fits.
+
+Theorem C12_fits_retry_without_bottom_decoration : forall css d us st s e,
+  Forall (fun u => Forall (fun c => c_pb c = 0%Z) (u_closes u)) us ->
+  fits_retry css d us st s e = fits_doc css d us st s e.
+Proof. exact fits_retry_without_bottom_decoration. Qed.
+Print Assumptions C12_fits_retry_without_bottom_decoration.
+
+(* a block of two lines with 15px of bottom padding after one line, on a page of 60px: the
+   block's content (ends at 60) fits, its padding does not: 15px are reserved for the break
+   between its two lines, none for the break before it *)
+Example C12_example_retry_reserve :
+  let us := lin_flows [Para 1 20 1 1; Blk 0 0 0 15 BAuto BAuto BAuto 0 [Para 2 20 1 1]] in
+  reserve true us (fun _ => false) 60 0 2 = 15%Z /\ reserve true us (fun _ => false) 60 0 1 = 0%Z.
+Proof. split; reflexivity. Qed.
